@@ -61,10 +61,37 @@ func FromAttestation(at *spb.Attestation) ([]byte, error) {
 	return nil, ErrNotInExtras
 }
 
+// UnmarshalCertTable parses an SEV-SNP certificate table from untrusted bytes. go-sev-guest's
+// parser adds an entry's 32-bit offset and length without an overflow check and then slices out of
+// range, so a parser panic is reported as a parse error.
+func UnmarshalCertTable(table []byte) (t *abi.CertTable, err error) {
+	defer func() {
+		if r := recover(); r != nil {
+			t, err = nil, fmt.Errorf("malformed certificate table: %v", r)
+		}
+	}()
+	t = new(abi.CertTable)
+	if err := t.Unmarshal(table); err != nil {
+		return nil, err
+	}
+	return t, nil
+}
+
+// ReportCertsToProto parses a raw attestation report followed by its certificate table from
+// untrusted bytes, reporting a parser panic as a parse error (see UnmarshalCertTable).
+func ReportCertsToProto(data []byte) (at *spb.Attestation, err error) {
+	defer func() {
+		if r := recover(); r != nil {
+			at, err = nil, fmt.Errorf("malformed report or certificate table: %v", r)
+		}
+	}()
+	return abi.ReportCertsToProto(data)
+}
+
 // FromCertTable returns the contents of the certificate table entry for the GCE UEFI endorsement.
 func FromCertTable(table []byte) ([]byte, error) {
-	t := new(abi.CertTable)
-	if err := t.Unmarshal(table); err != nil {
+	t, err := UnmarshalCertTable(table)
+	if err != nil {
 		return nil, err
 	}
 	return t.GetByGUIDString(sev.GCEFwCertGUID)
